@@ -7,16 +7,43 @@ package literal
 // Representation invariant of a literal: the dynamic type of the boxed value matches the tag.
 //@ spec macro wfLit(l *Literal) Bool = l != nil && (l.t == Bool ==> typeis(l.v, "bool")) && (l.t == Int64 ==> typeis(l.v, "int64")) && (l.t == Float64 ==> typeis(l.v, "float64")) && (l.t == Text ==> typeis(l.v, "string")) && (l.t == Blob ==> typeis(l.v, "[]byte")) && 0 <= l.t && l.t <= Blob
 
-//@ props C15 C08
+// What the literal parser does with a text, as functions of the trimmed text r: the value text lies
+// between the opening quote and the first occurrence of "^^type: and the type name follows it.
+//@ spec def litTypeAt(r String) Int = str_indexof(r, "\"^^type:", 0)
+//@ spec def litValuePart(r String) String = str_substr(r, 1, litTypeAt(r) - 1)
+//@ spec def litTypePart(r String) String = str_substr(r, litTypeAt(r) + 8, len(r) - litTypeAt(r) - 8)
+//@ spec def litShape(r String) Bool = len(r) > 0 && str_at(r, 0) == "\"" && litTypeAt(r) >= 1
+// Printing: "value"^^type:name with value and name rendered by fmt's %v.
+//@ spec def typeName(t Int) String = ite(t == 0, "bool", ite(t == 1, "int64", ite(t == 2, "float64", ite(t == 3, "text", ite(t == 4, "blob", "UNKNOWN")))))
+//@ spec def valueText(v Any) String = ite(typeis(v, "bool"), ite(unbox(v, "bool"), "true", "false"), ite(typeis(v, "int64"), itoa(unbox(v, "int64")), ite(typeis(v, "float64"), fmtfloat(unbox(v, "float64")), ite(typeis(v, "string"), unbox(v, "string"), ite(typeis(v, "[]byte"), fmtbytes(unbox(v, "[]byte")), "")))))
+//@ spec fdef frameText(s String, n String) String = "\"" + s + "\"^^type:" + n
+//@ spec def litText(t Int, v Any) String = frameText(valueText(v), typeName(t))
+//@ spec def noQuote(s String) Bool = !str_contains(s, "\"") && !str_prefixof("^^type:", s)
+
+//@ props C15 C08 C05
+//@ func (t Type) String
+//@   ensures[name] result == typeName(t)
+
+//@ func (l *Literal) String
+//@   requires wfLit(l)
+//@   opt axioms type-strof
+//@   ensures[text] result == litText(l.t, l.v)
+
 //@ func (b *unboundBuilder) Parse
 //@   opt terminates
 //@   opt replay-recv &unboundBuilder{}
 //@   ensures[value-or-error] (result0 != nil && result1 == nil) || (result0 == nil && result1 != nil)
 //@   ensures[well-formed] result0 != nil ==> wfLit(result0)
+//@   ensures[shape] result0 != nil ==> litShape(trimspace(s))
+//@   ensures[bool] litShape(trimspace(s)) && litTypePart(trimspace(s)) == "bool" ==> (result0 != nil) == parseboolOK(litValuePart(trimspace(s))) && (result0 != nil ==> result0.t == Bool && unbox(result0.v, "bool") == parsebool(litValuePart(trimspace(s))))
+//@   ensures[int64] litShape(trimspace(s)) && litTypePart(trimspace(s)) == "int64" ==> (result0 != nil) == parseintOK(litValuePart(trimspace(s))) && (result0 != nil ==> result0.t == Int64 && unbox(result0.v, "int64") == parseint(litValuePart(trimspace(s))))
+//@   ensures[float64] litShape(trimspace(s)) && litTypePart(trimspace(s)) == "float64" ==> (result0 != nil) == parsefloatOK(litValuePart(trimspace(s))) && (result0 != nil ==> result0.t == Float64 && unbox(result0.v, "float64") == parsefloat(litValuePart(trimspace(s))))
+//@   ensures[text] litShape(trimspace(s)) && litTypePart(trimspace(s)) == "text" ==> result0 != nil && result0.t == Text && unbox(result0.v, "string") == litValuePart(trimspace(s))
 
 //@ func (b *unboundBuilder) Build
 //@   opt replay-recv &unboundBuilder{}
 //@   ensures[value-or-error] (result0 != nil && result1 == nil) || (result0 == nil && result1 != nil)
+//@   ensures[accepts] result0 != nil <==> ((typeis(v, "bool") && t == Bool) || (typeis(v, "int64") && t == Int64) || (typeis(v, "float64") && t == Float64) || (typeis(v, "string") && t == Text) || (typeis(v, "[]byte") && t == Blob))
 //@   ensures[value] result0 != nil ==> fresh(result0) && result0.t == t && result0.v == v
 //@   ensures[well-formed] result0 != nil ==> wfLit(result0)
 
@@ -92,3 +119,21 @@ package literal
 //@ spec def litValue(v Any) Bool = typeis(v, "bool") || typeis(v, "int64") || typeis(v, "float64") || typeis(v, "string") || typeis(v, "[]byte")
 //@ lemma lit-enc-injective-same-type(v1 Any, v2 Any) using varint-prefix-free varint-length varint-no-trailing-zero le64-injective f64bits-injective: litValue(v1) && litValue(v2) && atag(v1) == atag(v2) && litEnc(v1) == litEnc(v2) ==> v1 == v2
 //@ lemma lit-enc-injective(v1 Any, v2 Any) using varint-prefix-free varint-length varint-no-trailing-zero le64-injective f64bits-injective: litValue(v1) && litValue(v2) && litEnc(v1) == litEnc(v2) ==> v1 == v2
+
+// ---- C05: printed bool / int64 / float64 / text literals parse back to equal literals. Assumed library
+// laws: ParseBool, ParseInt and ParseFloat invert fmt's %v rendering (for float64 bit for bit: %v prints
+// the shortest text that parses back to the same value); those texts contain no double quote and do not start with ^^type: .
+// Documented domain for text literals: the text does not contain "^^type: (and blobs are not covered).
+//@ props C05
+//@ axiom type-strof: forall t Int :: {strof(t, "Type")} strof(t, "Type") == typeName(t)
+//@ axiom value-text-roundtrip: (parseboolOK("true") && parsebool("true") && parseboolOK("false") && !parsebool("false")) && (forall x Int :: {itoa(x)} 0 - 9223372036854775808 <= x && x <= 9223372036854775807 ==> parseintOK(itoa(x)) && parseint(itoa(x)) == x) && (forall f F64 :: {fmtfloat(f)} parsefloatOK(fmtfloat(f)) && parsefloat(fmtfloat(f)) == f) && (forall x Int :: {itoa(x)} noQuote(itoa(x))) && (forall f F64 :: {fmtfloat(f)} noQuote(fmtfloat(f)))
+//@ lemma literal-text-is-trimmed(t Int, v Any) using trim-noop: 0 <= t && t <= 4 ==> trimspace(litText(t, v)) == litText(t, v)
+//@ lemma frame-text-splits using : forall s String, n String :: {frameText(s, n)} noQuote(s) ==> litShape(frameText(s, n)) && litTypePart(frameText(s, n)) == n && litValuePart(frameText(s, n)) == s
+//@ lemma bool-text-has-no-quote using : noQuote("true") && noQuote("false")
+//@ lemma literal-text-splits-bool(x Bool) using @opaque value-text-roundtrip frame-text-splits bool-text-has-no-quote: litShape(litText(0, box(x, "bool"))) && litTypePart(litText(0, box(x, "bool"))) == "bool" && parseboolOK(litValuePart(litText(0, box(x, "bool")))) && parsebool(litValuePart(litText(0, box(x, "bool")))) == x
+//@ lemma literal-text-splits-int64(x Int) using @opaque value-text-roundtrip frame-text-splits: 0 - 9223372036854775808 <= x && x <= 9223372036854775807 ==> litShape(litText(1, box(x, "int64"))) && litTypePart(litText(1, box(x, "int64"))) == "int64" && parseintOK(litValuePart(litText(1, box(x, "int64")))) && parseint(litValuePart(litText(1, box(x, "int64")))) == x
+//@ lemma literal-text-splits-float64(x F64) using @opaque value-text-roundtrip frame-text-splits: litShape(litText(2, box(x, "float64"))) && litTypePart(litText(2, box(x, "float64"))) == "float64" && parsefloatOK(litValuePart(litText(2, box(x, "float64")))) && parsefloat(litValuePart(litText(2, box(x, "float64")))) == x
+//@ lemma literal-text-splits-text(x String) using : !str_contains("\"" + x, "\"^^type:") ==> litShape(litText(3, box(x, "string"))) && litTypePart(litText(3, box(x, "string"))) == "text" && litValuePart(litText(3, box(x, "string"))) == x
+// The same statement without the restriction on the text fails (known finding: a text that starts with
+// ^^type: or contains "^^type: does not parse back).
+//@ lemma literal-text-splits-any-text(x String) using : litShape(litText(3, box(x, "string"))) && litTypePart(litText(3, box(x, "string"))) == "text" && litValuePart(litText(3, box(x, "string"))) == x
